@@ -89,15 +89,8 @@ def _init_worker(modname, tier):
     global _MOD, _TIER
     _MOD = __import__(modname, fromlist=["x"])
     _TIER = tier
-    # Pin each worker to one CPU: the thread explorer hands a baton between
-    # threads of one process, which is far cheaper on a single core.
-    try:
-        ident = multiprocessing.current_process()._identity
-        cpus = sorted(os.sched_getaffinity(0))
-        if ident and cpus:
-            os.sched_setaffinity(0, {cpus[(ident[0] - 1) % len(cpus)]})
-    except Exception:
-        pass
+    # (each worker is pinned to one CPU in _worker: the thread explorer hands a
+    # baton between threads of one process, far cheaper on a single core)
 
 
 def _run_unit(arg):
@@ -123,7 +116,9 @@ def _run_unit(arg):
         for ci, case in enumerate(mod.cases(unit, tier)):
             if ci % nshards != shard:
                 continue
+            _CUR[0], _CUR[1] = case, time.time()
             res = mod.run_case(case)
+            _CUR[0] = None
             acc["evaluations"] += 1
             acc["executions"] += res.executions
             d = digest(res.outcome)
@@ -141,6 +136,11 @@ def _run_unit(arg):
                 first = (case, d)
                 acc["samples"].append(_sample(mod, case, res))
             last = (case, d)
+            if acc["nviol"] >= 25:
+                # enough counterexamples from this unit: stop early (the run is
+                # then reported as not exhaustive; it exits 1 anyway)
+                acc["truncated"] = True
+                break
             if res.violations:
                 acc["nviol"] += len(res.violations)
                 if len(acc["violations"]) < 20:
@@ -182,6 +182,107 @@ def _sample(mod, case, res):
     return s
 
 
+_CUR = [None, 0.0]  # case being run by this worker, start time
+
+
+def _watchdog(slot, res_q, limit):
+    """Runs in every worker: a case that does not return within `limit`
+    seconds is reported and the worker exits (logging must never hang the
+    application; a bare `except:` in the code under test can swallow
+    asynchronous exceptions, so the only reliable remedy is to kill)."""
+    import threading
+
+    def loop():
+        while True:
+            time.sleep(1.0)
+            case, t0 = _CUR
+            if case is not None and time.time() - t0 > limit:
+                res_q.put(("hang", slot, case, time.time() - t0))
+                os._exit(3)
+
+    t = threading.Thread(target=loop, daemon=True)
+    t.start()
+
+
+def _worker(slot, modname, tier, task_q, res_q, limit):
+    try:
+        cpus = sorted(os.sched_getaffinity(0))
+        os.sched_setaffinity(0, {cpus[slot % len(cpus)]})
+    except Exception:
+        pass
+    _init_worker(modname, tier)
+    _watchdog(slot, res_q, limit)
+    while True:
+        item = task_q.get()
+        if item is None:
+            res_q.put(("exit", slot))
+            return
+        res_q.put(("start", slot, item[0]))
+        acc = _run_unit(item)
+        res_q.put(("done", slot, acc))
+
+
+def run_pool(order, modname, tier, jobs, limit):
+    """Own process pool (fork): survives workers that die or hang."""
+    from multiprocessing.connection import wait
+
+    ctx = multiprocessing.get_context("fork")
+    task_q = ctx.SimpleQueue()
+    res_q = ctx.SimpleQueue()
+    procs = {}
+    current = {}
+
+    def spawn(slot):
+        p = ctx.Process(target=_worker, args=(slot, modname, tier, task_q, res_q, limit))
+        p.daemon = True
+        p.start()
+        procs[slot] = p
+
+    for slot in range(jobs):
+        spawn(slot)
+    for item in order:
+        task_q.put(item)
+    for _ in range(jobs):
+        task_q.put(None)
+    pending = len(order)
+    results = []
+    hangs = []
+    exited = set()
+    while pending > 0:
+        if res_q._reader.poll(1.0):
+            msg = res_q.get()
+            if msg[0] == "start":
+                current[msg[1]] = msg[2]
+            elif msg[0] == "done":
+                current.pop(msg[1], None)
+                results.append(msg[2])
+                pending -= 1
+            elif msg[0] == "hang":
+                _, slot, case, secs = msg
+                hangs.append({"unit": current.get(slot), "case": case, "seconds": round(secs, 1)})
+            elif msg[0] == "exit":
+                exited.add(msg[1])
+            continue
+        for slot, p in list(procs.items()):
+            if not p.is_alive() and slot not in exited:
+                # died (watchdog exit or crash) while holding a unit
+                p.join()
+                if slot in current:
+                    idx = current.pop(slot)
+                    pending -= 1
+                    if not any(h["unit"] == idx for h in hangs):
+                        hangs.append({"unit": idx, "case": None, "seconds": None, "exitcode": p.exitcode})
+                    task_q.put(None)
+                    spawn(slot)
+                else:
+                    exited.add(slot)
+    for p in procs.values():
+        p.join(5)
+        if p.is_alive():
+            p.kill()
+    return results, hangs
+
+
 def load_known():
     path = os.path.join(VERIF, "known_findings.json")
     if not os.path.exists(path):
@@ -207,16 +308,7 @@ def main(modname, tier, seed, replay_path=None, jobs=None):
         16, multiprocessing.cpu_count()
     )
     jobs = max(1, min(jobs, len(order)))
-    results = []
-    if jobs == 1:
-        _init_worker(modname, tier)
-        for a in order:
-            results.append(_run_unit(a))
-    else:
-        ctx = multiprocessing.get_context("fork")
-        with ctx.Pool(jobs, initializer=_init_worker, initargs=(modname, tier)) as pool:
-            for acc in pool.imap_unordered(_run_unit, order, chunksize=1):
-                results.append(acc)
+    results, hangs = run_pool(order, modname, tier, jobs, getattr(mod, "CASE_TIMEOUT", 120))
     results.sort(key=lambda a: a["unit"])
 
     errors = [a["error"] for a in results if a["error"]]
@@ -246,6 +338,15 @@ def main(modname, tier, seed, replay_path=None, jobs=None):
     for a in results:
         violations.extend(a["violations"])
     nviol = sum(a["nviol"] for a in results)
+    for hng in hangs:
+        violations.append(
+            {
+                "sig": "call-did-not-return" if hng.get("case") is not None else "worker-died",
+                "case": hng.get("case"),
+                "detail": hng,
+            }
+        )
+        nviol += 1
     fin = getattr(mod, "finish", None)
     if fin:
         for sig, case, detail in fin(summary, tier) or []:
@@ -308,7 +409,7 @@ def main(modname, tier, seed, replay_path=None, jobs=None):
         "distinct_nontrivial": len(summary["nontrivial"]),
         "rule": mod.RULE,
         "samples": samples,
-        "exhaustive": True,
+        "exhaustive": not any(a.get("truncated") for a in results) and not hangs,
         "executions": summary["executions"],
         "distinct_observed_outcomes": len(summary["outcomes"]),
         "bounds": mod.BOUNDS(tier),
